@@ -10,11 +10,11 @@ def FeedInv (s : Option Parser × List Instr) (x : List Byte) : Prop :=
   (∃ q, s.1 = some q ∧ Post q (runA {} x) ∧ s.2 = (runA {} x).ins ∧ NoLine (rest q))
 
 theorem rel_init (ch : List Byte) : Rel { buf := ch } {} :=
-  ⟨rfl, rfl, rfl, Iff.rfl⟩
+  ⟨fun _ => ⟨rfl, rfl⟩, fun h => absurd h (Nat.not_succ_le_zero 1023), rfl, rfl, Iff.rfl⟩
 
 /-- one push and drain -/
 theorem feedStep_inv (s : Option Parser × List Instr) (x ch : List Byte) (hs : FeedInv s x)
-    (hne : ch ≠ []) (hg : Good (runSc {} x) ch) (hb : ∀ c ∈ ch, c ≠ BSL) :
+    (hne : ch ≠ []) (hb : ∀ c ∈ ch, c ≠ BSL) :
     FeedInv (feedStep s ch) (x ++ ch) := by
   have hemp : ¬ (ch.isEmpty ∧ s.1.isNone) := by
     intro h; exact hne (List.isEmpty_iff.1 h.1)
@@ -26,7 +26,7 @@ theorem feedStep_inv (s : Option Parser × List Instr) (x ch : List Byte) (hs : 
     obtain ⟨hx, hs0⟩ := h0
     subst hx; subst hs0
     dsimp only
-    have hpre : Pre { buf := ch } {} := ⟨rel_init ch, inv_init, hg, hb⟩
+    have hpre : Pre { buf := ch } {} := ⟨rel_init ch, inv_init, hb⟩
     have hd := drain_spec { buf := ch } {} hpre hne
     refine ⟨_, rfl, ?_, ?_, hd.2.2⟩
     · rw [List.nil_append]; exact hd.1
@@ -36,8 +36,7 @@ theorem feedStep_inv (s : Option Parser × List Instr) (x ch : List Byte) (hs : 
     rw [hq]
     dsimp only
     have hpre : Pre { q with buf := ch, bix := 0 } (runA {} x) :=
-      ⟨⟨hpost.rel.stash, hpost.rel.comp, hpost.rel.log, hpost.rel.mark⟩, hpost.inv,
-        by rw [runA_sc]; exact hg, hb⟩
+      ⟨⟨hpost.rel.fits, hpost.rel.over, hpost.rel.comp, hpost.rel.log, hpost.rel.mark⟩, hpost.inv, hb⟩
     have hd := drain_spec { q with buf := ch, bix := 0 } (runA {} x) hpre hne
     have ha := drain_nil_acc (ch.length + 2) { q with buf := ch, bix := 0 } (runA {} x).ins
     have hrun : runA (runA {} x) ch = runA {} (x ++ ch) := (runA_append {} x ch).symm
@@ -49,22 +48,21 @@ theorem feedStep_inv (s : Option Parser × List Instr) (x ch : List Byte) (hs : 
     · rw [← ha.1]; exact hd.2.2
 
 theorem feedFold_inv : ∀ (chunks : List (List Byte)) (s : Option Parser × List Instr) (x : List Byte),
-    FeedInv s x → (∀ c ∈ chunks, c ≠ []) → Good (runSc {} x) chunks.flatten →
+    FeedInv s x → (∀ c ∈ chunks, c ≠ []) →
     (∀ c ∈ chunks.flatten, c ≠ BSL) → FeedInv (chunks.foldl feedStep s) (x ++ chunks.flatten)
-  | [], s, x, hs, _, _, _ => by simpa using hs
-  | ch :: rest', s, x, hs, hne, hg, hb => by
-    rw [List.flatten_cons] at hg hb ⊢
+  | [], s, x, hs, _, _ => by simpa using hs
+  | ch :: rest', s, x, hs, hne, hb => by
+    rw [List.flatten_cons] at hb ⊢
     rw [List.foldl_cons, ← List.append_assoc]
-    refine feedFold_inv rest' _ _ (feedStep_inv s x ch hs (hne ch (by simp)) (good_prefix _ _ _ hg)
-      (fun c hc => hb c (by simp [hc]))) (fun c hc => hne c (by simp [hc])) ?_
+    exact feedFold_inv rest' _ _ (feedStep_inv s x ch hs (hne ch (by simp))
+      (fun c hc => hb c (by simp [hc]))) (fun c hc => hne c (by simp [hc]))
       (fun c hc => hb c (by simp [hc]))
-    rw [runSc_append]; exact good_append _ _ _ hg
 
 /-- `feed` over any chunking of a non-empty input -/
 theorem feed_spec (chunks : List (List Byte)) (hne : ∀ c ∈ chunks, c ≠ []) (hbs : chunks.flatten ≠ [])
-    (hg : Good {} chunks.flatten) (hb : ∀ c ∈ chunks.flatten, c ≠ BSL) :
+    (hb : ∀ c ∈ chunks.flatten, c ≠ BSL) :
     feed chunks = finish (runA {} chunks.flatten) (runA {} chunks.flatten).ins := by
-  have hinv := feedFold_inv chunks (none, []) [] (Or.inl ⟨rfl, rfl⟩) hne hg hb
+  have hinv := feedFold_inv chunks (none, []) [] (Or.inl ⟨rfl, rfl⟩) hne hb
   rw [List.nil_append] at hinv
   rw [feed_eq]
   cases hinv with
